@@ -584,10 +584,22 @@ impl Model for M {
     }
 
     fn step(&self, s: &St, a: &Act, out: &mut Vec<Viol>) -> Option<St> {
-        let (after, complaints) = self.execute(s, a);
         let layer = match self.layer {
             Layer::Orders => "orders",
             Layer::Engine => "engine",
+        };
+        // a panic of the code under test on an input of the quantifier is a violation (reported once
+        // per kind of input), not a machinery failure
+        let Ok((after, complaints)) = crate::core::guarded(|| self.execute(s, a)) else {
+            let kind = match a {
+                Act::OpenSent(_) => "open-sent",
+                Act::CancelSent(_) => "cancel-sent",
+                Act::Snap(..) => "order-snapshot",
+                Act::CancelOk(_) | Act::CancelErr(_) => "cancel-response",
+                Act::Full(_) => "full-snapshot",
+            };
+            out.push((format!("C01/{layer}/panic/{kind}"), format!("state={:?} action={a:?}: the code under test panicked", s.orders)));
+            return None;
         };
         for c in complaints {
             out.push((format!("C01/{layer}/structure/{c}"), format!("state={:?} action={a:?}", s.orders)));
